@@ -370,7 +370,8 @@ impl<'a> Scope<'a> {
             for (p, u) in f.iter() {
                 let shadowed = self.frames[..i].iter().any(|inner| inner.iter().any(|(ip, iu)| ip == p && iu != u));
                 if *u == q.ns && !shadowed {
-                    return format!("{p}:{}", q.local);
+                    // the empty prefix is a default-namespace declaration
+                    return if p.is_empty() { q.local.clone() } else { format!("{p}:{}", q.local) };
                 }
             }
         }
@@ -410,7 +411,11 @@ fn occ_attrs(min: u32, max: Max) -> String {
 fn xmlns_attrs(x: &[(String, String)]) -> String {
     let mut s = String::new();
     for (p, u) in x {
-        let _ = write!(s, " xmlns:{p}=\"{}\"", esc(u));
+        if p.is_empty() {
+            let _ = write!(s, " xmlns=\"{}\"", esc(u));
+        } else {
+            let _ = write!(s, " xmlns:{p}=\"{}\"", esc(u));
+        }
     }
     s
 }
@@ -489,12 +494,24 @@ fn print_content(o: &mut String, base: &Option<QName>, seq: &Option<Seq>, attrs:
         }
         Some(b) => {
             let _ = writeln!(o, "{pad}<xs:complexContent>");
+            // a documentation text that starts with "@complexContent:" is placed as the first child of
+            // <xs:complexContent> (before the extension) instead of inside the extension and the sequence
+            let on_content = seq.as_ref().and_then(|s| s.doc.as_ref()).and_then(|d| d.strip_prefix("@complexContent:"));
+            if let Some(d) = on_content {
+                o.push_str(&doc_xml(&Some(d.to_string()), &" ".repeat(ind + 2)));
+            }
             let _ = writeln!(o, "{pad}  <xs:extension base=\"{}\">", sc.qname(b));
             if let Some(s) = seq {
-                if s.doc.is_some() {
-                    o.push_str(&doc_xml(&s.doc, &" ".repeat(ind + 4)));
+                if on_content.is_some() {
+                    let mut plain = s.clone();
+                    plain.doc = None;
+                    print_seq(o, &plain, sc, ind + 4);
+                } else {
+                    if s.doc.is_some() {
+                        o.push_str(&doc_xml(&s.doc, &" ".repeat(ind + 4)));
+                    }
+                    print_seq(o, s, sc, ind + 4);
                 }
-                print_seq(o, s, sc, ind + 4);
             }
             print_attrs(o, attrs, sc, ind + 4);
             let _ = writeln!(o, "{pad}  </xs:extension>");
